@@ -67,6 +67,8 @@ def run(ctx):
     special_floats(ctx)
     shared_attribute_element_name(ctx)
     repeated_requests(ctx)
+    headers_mixing_elements_and_values(ctx)
+    tuples_for_repeated_elements(ctx)
     answers = ctx.driver.ask(reqs)
     for ans, (meta, actual, spec) in zip(answers, metas):
         model = [SM.canon_info(x) for x in ans] if isinstance(ans, list) else ans
@@ -450,6 +452,65 @@ def repeated_requests(ctx):
             if seen[-1] != [["t-1"], [["a", "v"]]]:
                 ctx.fail("request differs from what the WSDL prescribes", meta, seen[-1], [["t-1"], [["a", "v"]]])
                 break
+
+
+def tuples_for_repeated_elements(ctx):
+    """A repeated element given as a tuple - at the top level, inside a dict and inside a factory object - is written
+    like the list of the same items."""
+    schema = ('<xsd:complexType name="O"><xsd:sequence><xsd:element name="n" type="xsd:int" maxOccurs="unbounded"/>'
+              '<xsd:element name="s" type="xsd:string" minOccurs="0" maxOccurs="unbounded"/></xsd:sequence></xsd:complexType>'
+              '<xsd:element name="f"><xsd:complexType><xsd:sequence><xsd:element name="o" type="x:O"/>'
+              '<xsd:element name="t" type="xsd:int" maxOccurs="unbounded"/></xsd:sequence></xsd:complexType></xsd:element>')
+    client = wsdlkit.client(wsdlkit.wsdl_doc(schema, "f", None), nosend=True)
+
+    def sent(o, t):
+        env = wsdlkit.envelope_bytes(client.service.f(o, t))
+        fn = xmlread.find1(xmlread.find1(xmlread.parse(env), "Body"), "f")
+        return [[c["name"][1], c.get("text") if not c["children"] else [[g["name"][1], g.get("text")] for g in c["children"]]]
+                for c in fn["children"]]
+    want = [["o", [["n", "3"], ["n", "4"], ["n", "5"], ["s", "a"], ["s", "b"]]], ["t", "7"], ["t", "8"]]
+    obj = client.factory.create("{%s}O" % wsdlkit.TNS)
+    obj.n, obj.s = (3, 4, 5), ("a", "b")
+    for label, o, t in (("lists", {"n": [3, 4, 5], "s": ["a", "b"]}, [7, 8]),
+                        ("tuples in a dict", {"n": (3, 4, 5), "s": ("a", "b")}, (7, 8)),
+                        ("tuples in a factory object", obj, (7, 8))):
+        meta = {"stream": "tuples-for-repeated-elements", "argument": label}
+        ctx.case(common.canon(meta), True)
+        try:
+            got = sent(o, t)
+        except Exception as e:
+            got = "%s: %s" % (type(e).__name__, e)
+        if got != want:
+            ctx.fail("request differs from what the WSDL prescribes", meta, got, want)
+
+
+def headers_mixing_elements_and_values(ctx):
+    """soapheaders given as a list that mixes a caller-made Element with values for the declared header parts: every
+    value goes to its part in declaration order, wherever the Elements stand among them."""
+    from suds.sax.element import Element
+    schema = ('<xsd:element name="f"><xsd:complexType><xsd:sequence><xsd:element name="a" type="xsd:string"/>'
+              '</xsd:sequence></xsd:complexType></xsd:element><xsd:element name="H1" type="xsd:string"/>'
+              '<xsd:element name="H2" type="xsd:int"/>')
+    w = wsdlkit.wsdl_doc(schema, "f", None, header_parts=[("element", "x:H1"), ("element", "x:H2")])
+
+    def tok():
+        e = Element("Token", ns=("tk", "urn:token"))
+        e.setText("t")
+        return e
+    for label, hs, want in (("element-first", [tok(), "h1", 2], ["Token", "H1=h1", "H2=2"]),
+                            ("element-between", ["h1", tok(), 2], ["H1=h1", "Token", "H2=2"]),
+                            ("element-last", ["h1", 2, tok()], ["H1=h1", "H2=2", "Token"]),
+                            ("two-elements", [tok(), "h1", tok(), 2], ["Token", "H1=h1", "Token", "H2=2"])):
+        meta = {"stream": "headers-mixing-elements-and-values", "order": label}
+        ctx.case(common.canon(meta), True)
+        try:
+            env = wsdlkit.envelope_bytes(wsdlkit.client(w, nosend=True, soapheaders=hs).service.f("v"))
+            hdr = xmlread.find1(xmlread.parse(env), "Header")
+            got = [c["name"][1] if c["name"][1] == "Token" else "%s=%s" % (c["name"][1], c.get("text")) for c in hdr["children"]]
+        except Exception as e:
+            got = "%s: %s" % (type(e).__name__, e)
+        if got != want:
+            ctx.fail("request differs from what the WSDL prescribes", meta, got, want)
 
 
 def one(ctx, client, I, op, args, mode, meta, env, reqs, metas):
